@@ -204,3 +204,149 @@ def matmulRecs (a b : List (Rec R)) (m n l : Nat) (w : World R) : Outcome (List 
 end Matmul
 
 end EasyMl
+
+/-! ## Histories of container operations
+
+A *program* is a finite sequence of container operations; operands are the indices of earlier
+results (or of containers overwritten in place).  `runModel` executes it with the code-shaped
+container model, `runSpec` with lists of scalar records (and the shapes, which the scalar
+computation needs only to decide which operand pairings exist).  Props/C06 `history_eq_elementwise`
+says the two runs coincide for every program. -/
+
+namespace EasyMl
+
+variable {R : Type}
+
+/-- one container operation of a history -/
+inductive CInstr (R : Type) where
+  | vars (h : Nat) (shape : Shape String) (vals : List R)      -- `variables`
+  | consts (shape : Shape String) (vals : List R)              -- `constants`
+  | un (op : UOp R) (a : Nat)                                  -- allocating, one container
+  | bin (op : BOp R) (a b : Nat)                               -- allocating, two containers
+  | matmulT (a b : Nat)                                        -- `RecordTensor * RecordTensor`
+  | matmulM (a b : Nat)                                        -- `RecordMatrix * RecordMatrix`
+  | reset (a : Nat)                                            -- in place
+  | unAssign (op : UOp R) (a : Nat)                            -- `unary_assign`, in place
+  | leftAssign (op : BOp R) (a b : Nat)                        -- `binary_left_assign`, overwrites `a`
+
+/-- what the specification keeps of a container: its shape and its records -/
+abbrev SCont (R : Type) := Shape String × List (Rec R)
+
+/-- the specification's view of a model container -/
+def Cont.abs (c : Cont R) : SCont R := (c.shape, c.toRecs)
+
+section Run
+variable [Add R] [Sub R] [Mul R] [Div R] [Neg R] [Zero R] [One R] [RealFns R]
+
+/-- matrix multiplication of two record lists with the shapes' say on which products exist -/
+def specMatmul (tensor : Bool) (a b : SCont R) (w : World R) : Outcome (SCont R × World R) :=
+  match Cont.dims2 a.1, Cont.dims2 b.1 with
+  | some (l0, l1), some (r0, r1) =>
+    if l1.2 ≠ r0.2 then .panic .explicit
+    else if tensor && l0.1 == r1.1 then .panic .explicit
+    else
+      (matmulRecs a.2 b.2 l0.2 l1.2 r1.2 w).map fun r =>
+        ((if tensor then [l0, r1] else [(l0.1, l0.2), (l1.1, r1.2)], r.1), r.2)
+  | _, _ => .panic .explicit
+
+/-- one step of the code-shaped model; a dangling operand index is a (machinery) index panic -/
+def CInstr.stepModel (i : CInstr R) (cs : List (Cont R)) (w : World R) :
+    Outcome (List (Cont R) × World R) :=
+  match i with
+  | .vars h shape vals => let r := Cont.variables h shape vals w; .ok (cs ++ [r.1], r.2)
+  | .consts shape vals => .ok (cs ++ [Cont.constants shape vals], w)
+  | .un op a =>
+    match cs[a]? with
+    | none => .panic .index
+    | some c => let r := op.container c w; .ok (cs ++ [r.1], r.2)
+  | .bin op a b =>
+    match cs[a]?, cs[b]? with
+    | some x, some y => (op.container x y w).map fun r => (cs ++ [r.1], r.2)
+    | _, _ => .panic .index
+  | .matmulT a b =>
+    match cs[a]?, cs[b]? with
+    | some x, some y => (x.matmulTensor y w).map fun r => (cs ++ [r.1], r.2)
+    | _, _ => .panic .index
+  | .matmulM a b =>
+    match cs[a]?, cs[b]? with
+    | some x, some y => (x.matmulMatrix y w).map fun r => (cs ++ [r.1], r.2)
+    | _, _ => .panic .index
+  | .reset a =>
+    match cs[a]? with
+    | none => .panic .index
+    | some c => let r := c.reset w; .ok (cs.set a r.1, r.2)
+  | .unAssign op a =>
+    match cs[a]? with
+    | none => .panic .index
+    | some c => let r := c.unaryAssign op.fns.1 op.fns.2 w; .ok (cs.set a r.1, r.2)
+  | .leftAssign op a b =>
+    match cs[a]?, cs[b]? with
+    | some x, some y =>
+      (x.binaryLeftAssign y op.fns.1 op.fns.2.1 op.fns.2.2 w).map fun r => (cs.set a r.1, r.2)
+    | _, _ => .panic .index
+
+/-- the same step done element by element with scalar records -/
+def CInstr.stepSpec (i : CInstr R) (cs : List (SCont R)) (w : World R) :
+    Outcome (List (SCont R) × World R) :=
+  match i with
+  | .vars h shape vals => let r := variablesRecs h vals w; .ok (cs ++ [(shape, r.1)], r.2)
+  | .consts shape vals => .ok (cs ++ [(shape, vals.map Rec.constant)], w)
+  | .un op a =>
+    match cs[a]? with
+    | none => .panic .index
+    | some c => let r := Cont.mapRecs op.scalar c.2 w; .ok (cs ++ [(c.1, r.1)], r.2)
+  | .bin op a b =>
+    match cs[a]?, cs[b]? with
+    | some x, some y =>
+      if x.1 ≠ y.1 then .panic .explicit
+      else (zipRecs op.scalar x.2 y.2 w).map fun r => (cs ++ [(x.1, r.1)], r.2)
+    | _, _ => .panic .index
+  | .matmulT a b =>
+    match cs[a]?, cs[b]? with
+    | some x, some y => (specMatmul true x y w).map fun r => (cs ++ [r.1], r.2)
+    | _, _ => .panic .index
+  | .matmulM a b =>
+    match cs[a]?, cs[b]? with
+    | some x, some y => (specMatmul false x y w).map fun r => (cs ++ [r.1], r.2)
+    | _, _ => .panic .index
+  | .reset a =>
+    match cs[a]? with
+    | none => .panic .index
+    | some c => let r := resetRecs c.2 w; .ok (cs.set a (c.1, r.1), r.2)
+  | .unAssign op a =>
+    match cs[a]? with
+    | none => .panic .index
+    | some c => let r := Cont.mapRecs op.scalar c.2 w; .ok (cs.set a (c.1, r.1), r.2)
+  | .leftAssign op a b =>
+    match cs[a]?, cs[b]? with
+    | some x, some y =>
+      if x.1 ≠ y.1 then .panic .explicit
+      else (zipRecs op.scalar x.2 y.2 w).map fun r => (cs.set a (x.1, r.1), r.2)
+    | _, _ => .panic .index
+
+/-- a program with the model: the first panic ends the run -/
+def runModel : List (CInstr R) → List (Cont R) → World R → Outcome (List (Cont R) × World R)
+  | [], cs, w => .ok (cs, w)
+  | i :: rest, cs, w =>
+    match i.stepModel cs w with
+    | .panic k => .panic k
+    | .ok (cs', w') => runModel rest cs' w'
+
+/-- the same program element by element -/
+def runSpec : List (CInstr R) → List (SCont R) → World R → Outcome (List (SCont R) × World R)
+  | [], cs, w => .ok (cs, w)
+  | i :: rest, cs, w =>
+    match i.stepSpec cs w with
+    | .panic k => .panic k
+    | .ok (cs', w') => runSpec rest cs' w'
+
+/-- the constructors of a program are given as many numbers as their shape has cells, at least
+    one (what `Tensor::from` / `Matrix::from_flat_row_major` insist on) -/
+def CInstr.Valid : CInstr R → Prop
+  | .vars _ shape vals => vals.length = elements shape ∧ vals ≠ []
+  | .consts shape vals => vals.length = elements shape ∧ vals ≠ []
+  | _ => True
+
+end Run
+
+end EasyMl
